@@ -570,7 +570,7 @@ def main(argv):
         if any(dt.values()):
             try:
                 t1 = time.time()
-                dn = int(getattr(prop, 'DENSE_REQS', {}).get(tier, 60 if tier == 'quick' else 300))
+                dn = int(getattr(prop, 'DENSE_REQS', {}).get(tier, 60 if tier == 'quick' else 150))
                 names = table_tasks(dt, ('dev',) if tier == 'quick' else getattr(prop, 'DENSE_MODES', ('dev', 'rel')), 'dense', 'dense',
                                     lambda cfg: max(10, min(dn, prop.budget(cfg, 'quick'))), dense=max(100, 2 * dn))
                 print('[%s] dense digit-count pass: %d extra types (%s), built in %.0fs' % (
